@@ -239,6 +239,7 @@ pub fn install_panic_hook() {
         };
         let text = format!("{} @ {}", payload, loc);
         LAST_PANIC.with(|p| *p.borrow_mut() = Some(text.clone()));
+        crate::sched::abort_active();
         if let Ok(mut l) = PANIC_LOG.lock() {
             if l.len() >= 256 {
                 l.remove(0);
